@@ -479,6 +479,81 @@ func runC07AfterUpgrade(rev int, target string, PI, PT time.Duration, r *rep.Rep
 	return
 }
 
+// runC07FailedUpgrade: an upgrade attempt that does not complete (the candidate vanishes, sends
+// something else than the upgrade packet, or lets the upgrade timeout pass) must leave the
+// heartbeat of the session alone: a silent peer is still closed exactly at its deadline.
+func runC07FailedUpgrade(rev int, fail string, PI, PT time.Duration, r *rep.Report) (key, msg string) {
+	rig.Bubble(r.T(), func() {
+		so := &config.ServerOptions{}
+		so.SetAllowEIO3(true)
+		so.SetTransports(types.NewSet("polling", "websocket"))
+		so.SetPingInterval(PI)
+		so.SetPingTimeout(PT)
+		so.SetUpgradeTimeout(PT / 8)
+		w := rig.NewWorld(rig.Options{Server: so})
+		defer w.Finish()
+		cl, err := w.Connect(rig.ClientCfg{Rev: rev, Transport: "polling", NoAutoPong: true})
+		rig.Wait()
+		if err != nil {
+			key, msg = "c07-handshake-failed", err.Error()
+			return
+		}
+		sid := cl.Sid
+		sock := w.SocketByID(sid)
+		openAt := w.Tap.Of(sid, "connection")[0].At
+		cl.StartReader()
+		var deadline time.Duration
+		if rev == 4 {
+			// the attempt falls between the server's ping and its deadline
+			time.Sleep(openAt + PI + PT/4 - w.Tap.Now())
+			deadline = openAt + PI + PT
+		} else {
+			time.Sleep(PI / 4)
+			deadline = openAt + PI + PT
+		}
+		rig.Wait()
+		cand := w.Candidate(sid, rev)
+		if cand.DialCandidateWS() != nil {
+			key, msg = "c07-candidate-dial-failed", "the candidate WebSocket could not be opened"
+			return
+		}
+		time.Sleep(time.Millisecond)
+		cand.WSWriteRaw(false, []byte("2probe"))
+		time.Sleep(time.Millisecond)
+		rig.Wait()
+		switch fail {
+		case "candidate-vanishes":
+			cand.Stop()
+		case "message-instead-of-upgrade":
+			cand.WSWriteRaw(false, []byte("4not-yet"))
+		case "upgrade-timeout":
+			// nothing: the upgrade timeout (PT/8) passes
+		}
+		time.Sleep(PT/8 + 2*time.Millisecond)
+		rig.Wait()
+		if sock.Upgraded() || sock.Upgrading() {
+			key, msg = "c07-failed-upgrade-lane", fmt.Sprintf("after the failed attempt (%s): Upgraded()=%v Upgrading()=%v", fail, sock.Upgraded(), sock.Upgrading())
+			return
+		}
+		time.Sleep(deadline - w.Tap.Now() - time.Nanosecond)
+		rig.Wait()
+		if ev := w.Tap.Of(sid, "close"); len(ev) > 0 {
+			key, msg = "c07-closed-before-deadline", fmt.Sprintf("revision-%d polling session, failed upgrade attempt (%s): closed (%s) at %v, before its deadline %v", rev, fail, ev[0].Str, ev[0].At, deadline)
+			return
+		}
+		time.Sleep(2 * time.Nanosecond)
+		rig.Wait()
+		time.Sleep(time.Millisecond)
+		rig.Wait()
+		ev := w.Tap.Of(sid, "close")
+		if len(ev) != 1 || ev[0].Str != "ping timeout" || ev[0].At != deadline {
+			key, msg = "c07-no-timeout-at-deadline", fmt.Sprintf("revision-%d polling session with a silent peer, one upgrade attempt that failed (%s) before the deadline: expected a 'ping timeout' close at exactly %v; close events %v (state %s)", rev, fail, deadline, ev, sock.ReadyState())
+		}
+		cl.Stop()
+	})
+	return
+}
+
 // wrong-direction heartbeats and the revision mismatch between a session and its upgrade transport
 func runC07Direction(mode string, rev int, transport string, r *rep.Report) (key, msg string) {
 	var pan any
@@ -644,6 +719,20 @@ func TestC07(t *testing.T) {
 		r.Obs("closing_sessions_checked", 1)
 		if key != "" {
 			r.Violation(key, msg, map[string]any{"lane": "silent polling client, buffered packet, Close(false): heartbeat deadline must still close the session", "rev": rev, "PI": PI.String(), "PT": PT.String()})
+		}
+	}
+	for i := 0; i < r.N(8, 400); i++ {
+		for _, rev := range []int{4, 3} {
+			for _, fail := range []string{"candidate-vanishes", "message-instead-of-upgrade", "upgrade-timeout"} {
+				PI := []time.Duration{time.Second, 3 * time.Second, 10 * time.Second}[i%3]
+				PT := []time.Duration{400 * time.Millisecond, time.Second, 5 * time.Second}[(i/3)%3]
+				key, msg := runC07FailedUpgrade(rev, fail, PI, PT, r)
+				r.Case(fmt.Sprintf("failed-upgrade/v%d/%s/%v/%v", rev, fail, PI, PT), true)
+				r.Obs("heartbeats_across_failed_upgrade_checked", 1)
+				if key != "" {
+					r.Violation(key, msg, map[string]any{"lane": "upgrade attempt that fails between a ping and its deadline, then silence", "rev": rev, "fail": fail, "PI": PI.String(), "PT": PT.String()})
+				}
+			}
 		}
 	}
 	nd := r.N(16, 400)
